@@ -695,6 +695,12 @@ ${(
 )}
 ${_ ('space-before-parenthesis')}
 <% spaced = _  ('two-spaces-before-parenthesis') %>
+<%namespace name="inl">
+  <%def name="nd(a=_('inline-namespace-def-default'))">${_('inline-namespace-def-body')}</%def>
+</%namespace>
+${x |
+   f(_('filter-list-after-pipe-newline'))}
+<%namespace name="inl2" file="${_('decoy-not-python-bearing') and 'x.html'}"/>
 """
 
 
@@ -1023,18 +1029,32 @@ def traceback_probe(position, source, lead):
         shutil.rmtree(base, ignore_errors=True)
 
 
-def extract_encoded(which):
-    """a Latin-1 template that says so in its magic comment, extracted while the extractor's own encoding option says utf-8:
-    the comment wins (as it does when the template is compiled): returns (msgids extracted, expected)"""
+ENCODED_VARIANTS = ("comment-vs-option", "input-encoding-option-only", "comment-only-raw-string", "encoding-option-only")
+
+
+def extract_encoded(which, variant="comment-vs-option"):
+    """a template in another encoding than UTF-8; the encoding is named by its magic comment (while the extractor's own option
+    says utf-8: the comment wins, as it does when the template is compiled), by the Mako-style option input_encoding alone, by
+    the comment alone (message in a raw string), or by the Babel-style option alone: returns (msgids extracted, expected)"""
     import io
-    tmpl = "## -*- coding: iso-8859-1 -*-\n${_('caf\u00e9')}\n<% x = _('na\u00efve') %>\n"
-    data = tmpl.encode("iso-8859-1")
-    want = ["caf\u00e9", "na\u00efve"]
+    if variant == "comment-vs-option":
+        tmpl, enc, opts = "## -*- coding: iso-8859-1 -*-\n${_('caf\u00e9')}\n<% x = _('na\u00efve') %>\n", "iso-8859-1", {"encoding": "utf-8"}
+        want = ["caf\u00e9", "na\u00efve"]
+    elif variant == "input-encoding-option-only":
+        tmpl, enc, opts = "${_('\u0442\u0435\u0441\u0442')}\n", "cp1251", {"input_encoding": "cp1251"}
+        want = ["\u0442\u0435\u0441\u0442"]
+    elif variant == "encoding-option-only":
+        tmpl, enc, opts = "${_('\u0442\u0435\u0441\u0442')}\n<% y = _(r'\u0442\u0435') %>\n", "cp1251", {"encoding": "cp1251"}
+        want = ["\u0442\u0435\u0441\u0442", "\u0442\u0435"]
+    else:
+        tmpl, enc, opts = "## -*- coding: cp1251 -*-\n<% x = _(r'\u0442\u0435') %>\n${_('\u0442')}\n", "cp1251", {}
+        want = ["\u0442\u0435", "\u0442"]
+    data = tmpl.encode(enc)
     try:
         if which == "babel":
             from mako.ext import babelplugin
             got = [r[2] if isinstance(r[2], str) else r[2][0] for r in
-                   babelplugin.extract(io.BytesIO(data), ["_"], [], {"encoding": "utf-8"})]
+                   babelplugin.extract(io.BytesIO(data), ["_"], [], dict(opts))]
         else:
             import os
             import shutil
